@@ -38,3 +38,23 @@ JOBS['C12'] = [
      'defs': {'quick': {'PN': 3, 'LL': 3}, 'thorough': {'PN': 4, 'LL': 3}}, 'split_depth': 4,
      'nslices': {'quick': 32, 'thorough': 64}, 'expect_reach': ['end', 'literal', 'general']},
 ]
+
+# ---------------------------------------------------------------- C11
+META['C11'] = {
+    'bounds': {'quick': 'all pattern strings <=3 bytes over the 23-character metacharacter alphabet x icase/notbol/noteol x 6 lines (ASCII, 2- and 3-byte characters), via rstr_make and regcomp; repetition templates with M,N in {0..9,63..65,126..130,256,999}; 1..3,30..34,61..67,100 nested/consecutive groups',
+               'thorough': 'all strings <=4 bytes over the alphabet, and all strings <=3 bytes with one position free over 1..255; repetition templates with all M,N in 0..140'},
+    'outside': 'patterns longer than 4 bytes outside the repetition/group templates; lines outside the family',
+    'assumptions': ['the engine checks every load/store against object bounds: "fits the memory reserved" is decided on the real regcomp/rnode_emit code'],
+}
+JOBS['C11'] = [
+    {'name': 'short_patterns', 'harness': 'c11_pat.c', 'units': ['rstr', 'rset', 'regex', 'sbuf', 'uc'],
+     'defs': {'quick': {'PN': 3}, 'thorough': {'PN': 4}}, 'split_depth': 9, 'nslices': {'quick': 32, 'thorough': 64},
+     'expect_reach': ['end', 'compiled', 'rejected', 'matched'], 'timeout': {'quick': 280, 'thorough': 1700}, 'max_steps': 3000000, 'native_timeout': 5},
+    {'name': 'free_byte', 'harness': 'c11_pat.c', 'units': ['rstr', 'rset', 'regex', 'sbuf', 'uc'], 'tiers': ['thorough'],
+     'defs': {'PN': 3}, 'variants': [{'FREEBYTE': 0}, {'FREEBYTE': 1}, {'FREEBYTE': 2}], 'split_depth': 5, 'nslices': 16,
+     'expect_reach': ['end', 'compiled'], 'timeout': 1700, 'max_steps': 3000000, 'native_timeout': 5},
+    {'name': 'repetition', 'harness': 'c11_rep.c', 'units': ['rset', 'regex', 'sbuf', 'uc'],
+     'defs': {'quick': {}, 'thorough': {'FULL': 140}},
+     'variants': [{'TMPL': t} for t in range(9)], 'split_depth': 2, 'nslices': {'quick': 4, 'thorough': 16},
+     'expect_reach': ['end'], 'timeout': {'quick': 280, 'thorough': 1700}},
+]
